@@ -373,6 +373,9 @@ fn directed_runs(quick: bool, vios: &mut VioSet) -> Vec<serde_json::Value> {
         ("padding-only-data-large-window", vec![Ev::DataPad(0, 255)], false, true),
         ("ping-flood-writes-blocked", vec![Ev::Ping], true, true),
         ("settings-flood-writes-blocked", vec![Ev::Settings], true, true),
+        // the transport takes a few partial writes and then stalls for good (a reader that falls asleep), 50 PINGs per round
+        ("ping-flood-writes-trickle", vec![Ev::Ping], true, true),
+        ("ping-flood-writes-trickle-vectored", vec![Ev::Ping], true, true),
         ("window-update-zero-on-streams", vec![Ev::Open, Ev::WuStreamZero], false, true),
         ("data-on-reset-stream", vec![Ev::DataOnOldStream], false, true),
         ("priority-flood", vec![Ev::PriorityFlood], false, true),
@@ -384,7 +387,8 @@ fn directed_runs(quick: bool, vios: &mut VioSet) -> Vec<serde_json::Value> {
         if name.contains("large-window") {
             sb.initial_window_size(65_535);
         }
-        let cfg = T2Cfg { role: Side::Server, peer_settings: vec![], client: None, server: Some(sb), policy: IoPolicy::default() };
+        let trickle = name.contains("trickle");
+        let cfg = T2Cfg { role: Side::Server, peer_settings: vec![], client: None, server: Some(sb), policy: IoPolicy { vectored: name.contains("vectored"), ..IoPolicy::default() } };
         let mut t = T2::new(&cfg, vec![]);
         t.accept_enabled = accept;
         let mut w = World { next_sid: 1, opened: vec![], max_streams: 0, max_recv_buffered: 0, max_send_buffered: 0, max_text: 0, pings: 0 };
@@ -408,8 +412,28 @@ fn directed_runs(quick: bool, vios: &mut VioSet) -> Vec<serde_json::Value> {
         let mut ended_at = None;
         let mut stalled = 0u64;
         let mut dropped_by_app = 0u64;
+        if trickle {
+            // a first burst whose replies exceed what the transport will take
+            for _ in 0..400 {
+                apply_peer(&mut t, &mut w, &Ev::Ping);
+            }
+        }
         for r in 0..rounds {
+            if trickle && r < 4 {
+                // 1500 octets of output are taken, then the transport stalls again
+                let mut s = t.sh.lock().unwrap();
+                s.set_write_blocked(Side::Server, false);
+                s.set_write_budget(Side::Server, Some(1500));
+                drop(s);
+                t.drive(100);
+                let mut s = t.sh.lock().unwrap();
+                s.set_write_budget(Side::Server, None);
+                s.set_write_blocked(Side::Server, true);
+            }
             for e in &evs {
+                for _ in 1..if trickle { 50 } else { 1 } {
+                    apply_peer(&mut t, &mut w, e);
+                }
                 if let (Ev::DataPad(n, p), Some(sid)) = (e, w.opened.last().copied()) {
                     // this flood stays inside the windows the peer sees (otherwise it is simply a flow-control error)
                     t.catch_up();
@@ -482,6 +506,18 @@ fn directed_runs(quick: bool, vios: &mut VioSet) -> Vec<serde_json::Value> {
                 let pending_in_pipe = t.sh.lock().unwrap().pipes[Side::Client.idx()].buf.len();
                 if pending_in_pipe == 0 && b.3 > 64 {
                     vios.add(Violation { rule: "C18.replies-unbounded-while-blocked".into(), signature: name.to_string(), what: format!("attack loop '{}' with writes blocked: all {} octets of input were consumed and {} frames are queued", name, consumed_while_blocked, b.3), replay: replay.clone() });
+                }
+                // PING / SETTINGS: every frame read is answered by a frame of (about) its own size, held in the codec's write
+                // buffer: what has been read and not yet answered on the transport is what the endpoint owes
+                if name.contains("ping-flood") {
+                    let (read, written) = {
+                        let s = t.sh.lock().unwrap();
+                        (s.pipes[Side::Client.idx()].total_read, s.pipes[Side::Server.idx()].total_written)
+                    };
+                    let owed = read.saturating_sub(written);
+                    if owed > 48 * 1024 {
+                        vios.add(Violation { rule: "C18.replies-unbounded-while-blocked".into(), signature: format!("{}:owed", name), what: format!("attack loop '{}': the transport has stalled, yet the endpoint has read {} octets of PINGs and written {} octets: it owes {} octets of replies (its write buffer is meant to hold about 16 KiB)", name, read, written, owed), replay: replay.clone() });
+                    }
                 }
             }
         }
